@@ -106,6 +106,13 @@ func (m *e2Machine) rawRequest(a pt.Action, errs *[]string, mu *sync.Mutex) {
 				mu.Unlock()
 			}
 		}
+	case "openonly": // the entry of a realtime client: nothing but the call itself, the client delivers it
+		d := m.openDatatype(c, a.T, a.K, c.typ)
+		if d != nil {
+			mu.Lock()
+			c.dts[a.T] = d
+			mu.Unlock()
+		}
 	case "opensync":
 		d := m.openDatatype(c, a.T, a.K, c.typ)
 		if d != nil {
